@@ -42,16 +42,14 @@ fn next_half(
 ) -> usize {
 	let half = slice.len() / 2;
 
-	// Values are compared numerically: `0.0` and `-0.0` are equal and must be found in place of each other,
-	// otherwise the search can pass by a zero of the other sign and point to a wrong element.
-	// Also it is not a good idea to use `match value.partial_cmp(slice[half]): it is slower.
-	#[allow(clippy::float_cmp)]
-	if value == *get(slice, half) {
-		padding + half
-	} else if &value > get(slice, half) {
-		f(value, get(slice, (half + 1)..), padding + half + 1)
-	} else {
-		f(value, get(slice, ..half), padding)
+	// The sorted slice is kept in the total order of `total_cmp`, where `-0.0` goes before `0.0`.
+	// With a numeric comparison both zeros are equal, may sit in any order and a search for one of them
+	// can walk past it; the total order also makes the slice a function of the window's content only,
+	// so a deserialized instance (which sorts the window again) behaves exactly like the original.
+	match value.total_cmp(get(slice, half)) {
+		Ordering::Equal => padding + half,
+		Ordering::Greater => f(value, get(slice, (half + 1)..), padding + half + 1),
+		Ordering::Less => f(value, get(slice, ..half), padding),
 	}
 }
 
@@ -255,18 +253,12 @@ impl<'de> Deserialize<'de> for SMM {
 
 		let mut slice = window.as_slice().to_owned().into_boxed_slice();
 
-		let mut sort_error = false;
-
-		slice.sort_unstable_by(|a, b| {
-			a.partial_cmp(b).unwrap_or_else(|| {
-				sort_error = true;
-				Ordering::Equal
-			})
-		});
-
-		if sort_error {
+		if slice.iter().any(|value| value.is_nan()) {
 			return Err(serde::de::Error::custom("SMM cannot operate NaN values"));
 		}
+
+		// the same order as `next` maintains
+		slice.sort_unstable_by(ValueType::total_cmp);
 
 		let half = window.len() / 2;
 		let is_even = window.len() % 2 == 0;
